@@ -1680,30 +1680,48 @@ impl<T: PPGEvaluatorStrategy> PPGEvaluator<T> {
         jobs: &mut [NodeInfo],
         node_idx: NodeIndex,
     ) -> Result<bool, PPGEvaluatorError> {
-        let downstreams = dag.neighbors_directed(node_idx, Direction::Outgoing);
-        for downstream_idx in downstreams {
-            match jobs[downstream_idx as usize].state {
-                JobState::Always(_) => {
-                    return Err(PPGEvaluatorError::InternalError(
-                        "Unexpected. Should have been required in the first place, I believe"
-                            .to_string(),
-                    ));
-                }
-                JobState::Output(JobStateOutput::NotReady(vs))
-                | JobState::Ephemeral(JobStateEphemeral::NotReady(vs)) => match vs {
-                    ValidationStatus::Unknown | ValidationStatus::Invalidated => return Ok(false),
-                    ValidationStatus::Validated => {}
-                },
-                JobState::Output(JobStateOutput::FinishedUpstreamFailure)
-                | JobState::Ephemeral(JobStateEphemeral::FinishedUpstreamFailure)
-                //unreachable - above | JobState::Always(JobStateAlways::FinishedUpstreamFailure) 
-                => {}
-                JobState::Output(JobStateOutput::FinishedSkipped) => {}
-                _ => {
-                    return Err(PPGEvaluatorError::InternalError(format!(
-                        "should not happen 1272 {:?}",
-                        jobs[downstream_idx as usize]
-                    )));
+        // A validated Ephemeral downstream is not a final verdict: it still runs
+        // if one of *its* downstreams turns out to need it, and then it needs this
+        // job's output. So look through validated Ephemerals (each one once).
+        let mut visited = HashSet::new();
+        let mut todo = vec![node_idx];
+        while let Some(idx) = todo.pop() {
+            let downstreams = dag.neighbors_directed(idx, Direction::Outgoing);
+            for downstream_idx in downstreams {
+                match jobs[downstream_idx as usize].state {
+                    JobState::Always(_) => {
+                        return Err(PPGEvaluatorError::InternalError(
+                            "Unexpected. Should have been required in the first place, I believe"
+                                .to_string(),
+                        ));
+                    }
+                    JobState::Output(JobStateOutput::NotReady(vs)) => match vs {
+                        ValidationStatus::Unknown | ValidationStatus::Invalidated => {
+                            return Ok(false)
+                        }
+                        ValidationStatus::Validated => {}
+                    },
+                    JobState::Ephemeral(JobStateEphemeral::NotReady(vs)) => match vs {
+                        ValidationStatus::Unknown | ValidationStatus::Invalidated => {
+                            return Ok(false)
+                        }
+                        ValidationStatus::Validated => {
+                            if visited.insert(downstream_idx) {
+                                todo.push(downstream_idx);
+                            }
+                        }
+                    },
+                    JobState::Output(JobStateOutput::FinishedUpstreamFailure)
+                    | JobState::Ephemeral(JobStateEphemeral::FinishedUpstreamFailure)
+                    //unreachable - above | JobState::Always(JobStateAlways::FinishedUpstreamFailure) 
+                    => {}
+                    JobState::Output(JobStateOutput::FinishedSkipped) => {}
+                    _ => {
+                        return Err(PPGEvaluatorError::InternalError(format!(
+                            "should not happen 1272 {:?}",
+                            jobs[downstream_idx as usize]
+                        )));
+                    }
                 }
             }
         }
